@@ -45,7 +45,7 @@ static std::string write_vtk(const Poly& p, const std::string& path) { std::ofst
     f << "\n\nCELLS 1 " << n + 1 << "\n" << n << " " << p.faces.size() << " "; for (auto& fc : p.faces) { f << fc.size() << " "; for (unsigned id : fc) f << id << " "; } f << "\n\nCELL_TYPES 1\n42\n\nCELL_DATA 1\nFIELD FieldData 1\ncell_type_id 1 1 int\n0\n"; return path; }
 
 struct Case { int poly, lmin, tri, seed; };
-static const double LM[3] = {0.25, 1.0 / 6, 0.1};
+static const double LM[4] = {0.25, 1.0 / 6, 0.1, 0.055};   // the last (fine) resolution only for the two smallest polyhedra: at that resolution ball pivoting leaves several holes to fill in one run
 static std::string case_text(const Case& c) { return std::to_string(c.poly) + " " + std::to_string(c.lmin) + " " + std::to_string(c.tri) + " " + std::to_string(c.seed); }
 static std::string case_json(const Case& c) { return "{\"polyhedron\":\"" + g_polys[c.poly].name + "\",\"l_min/size\":" + jnum(LM[c.lmin]) + ",\"initial_triangulation\":" + (c.tri ? "true" : "false") + ",\"seed\":" + std::to_string(c.seed) + "}"; }
 
@@ -82,8 +82,9 @@ static std::string run_poisson(int poly, int lmin, int seed, long* npts) {
 static void explore(Result& R) {
     const bool th = R.args.thorough(); setup(); const int K = th ? 32 : 4; long cases = 0, ok = 0, rej = 0, unit = 0, npts = 0, poisson_nonempty = 0; double worst_v = 0, worst_d = 0;
     std::string dir = std::string(getenv("VERIF_DIR") ? getenv("VERIF_DIR") : ".") + "/build/run/C13-" + std::to_string(getpid());
-    for (int p = 0; p < (int)g_polys.size(); p++) for (int l = 0; l < 3; l++) for (int t = 0; t < 2; t++) for (int k = 0; k < (t ? K : 1); k++) {
+    for (int p = 0; p < (int)g_polys.size(); p++) for (int l = 0; l < 4; l++) for (int t = 0; t < 2; t++) for (int k = 0; k < (t ? (l == 3 ? 3 * K : (g_polys[p].name == "cube_12_triangles_all_wound_inward" ? (th ? 3 * K : 6 * K) : K)) : 1); k++) {   /* the inward-wound cube is where the reconstruction most often has several holes to fill: more seeds there */
         if (!g_polys[p].valid && l != 1) continue;
+        if (l == 3 && !(g_polys[p].name == "tetrahedron" || g_polys[p].name == "octahedron")) continue; if (l == 3 && !t) continue;
         if (!R.args.mine(unit++)) continue; if (R.out_of_time(0.85)) { R.cap("deadline"); goto poisson; }
         Case c{p, l, t, k}; cases++; progress("mode=init\ncase=" + case_text(c) + "\n");
         ForkOut fo = run_forked([&](char* buf, size_t cap) { std::string r = run_case(c, dir); snprintf(buf, cap, "%s", r.c_str()); }, 300);
